@@ -123,23 +123,31 @@ var zones = []*time.Location{
 	time.FixedZone("p14", 14*3600), time.FixedZone("m12", -12*3600), time.FixedZone("npt", 5*3600+45*60),
 }
 
-// Instant builds a time.Time for the given unix second with arbitrary
-// nanoseconds, location and (optionally) a monotonic clock reading.
-func Instant(r *RNG, unix int64) (time.Time, string) {
-	ns := Pick(r, []int64{0, 1, 999999999, int64(r.Intn(1000000000))})
-	zi := r.Intn(len(zones))
-	t := time.Unix(unix, ns).In(zones[zi])
-	desc := zones[zi].String()
-	if r.Intn(3) == 0 {
-		// a value with a monotonic reading that denotes the same wall instant
+// InstantSpec describes a time.Time value completely enough to rebuild it.
+type InstantSpec struct {
+	Unix int64 `json:"unix"`
+	Ns   int64 `json:"ns"`
+	Zone int   `json:"zone"`
+	Mono bool  `json:"mono"`
+}
+
+func (r *RNG) InstantSpec(unix int64) InstantSpec {
+	return InstantSpec{Unix: unix, Ns: Pick(r, []int64{0, 1, 999999999, int64(r.Intn(1000000000))}), Zone: r.Intn(len(zones)), Mono: r.Intn(3) == 0}
+}
+
+// Time builds the time.Time: arbitrary nanoseconds and location, and (when Mono
+// and representable) a value carrying a monotonic clock reading that denotes
+// the same wall instant.
+func (s InstantSpec) Time() time.Time {
+	t := time.Unix(s.Unix, s.Ns).In(zones[s.Zone%len(zones)])
+	if s.Mono {
 		now := time.Now()
-		d := time.Unix(unix, ns).Sub(now)
-		if tm := now.Add(d); tm.Unix() == unix && tm.Nanosecond() == int(ns) {
-			t = tm.In(zones[zi])
-			desc += "+mono"
+		d := time.Unix(s.Unix, s.Ns).Sub(now)
+		if tm := now.Add(d); tm.Unix() == s.Unix && int64(tm.Nanosecond()) == s.Ns {
+			t = tm.In(zones[s.Zone%len(zones)])
 		}
 	}
-	return t, desc
+	return t
 }
 
 // Spell renders key bytes as base32 text in one of the accepted spellings.
